@@ -123,3 +123,39 @@ package gorp
 //@   ensures  tx.txIdentity() != nil && __in(o.txDeltas, tx.txIdentity()) ==>
 //@              (forall k K :: !__in(o.txDeltas[tx.txIdentity()].state, k) ==> (inKeys(res, k) == inKeys(committed, k)))
 //@   modifies nothing
+
+//@ # committed write: reverse[key] := value, every other key untouched, invariant kept
+//@ func (l *LookupIndex[K, E, V]) putLocked(key K, value V)
+//@   tparams K Key, E Entry[K], V comparable
+//@   requires LI(l)
+//@   ensures  LI(l)
+//@   ensures  __in(l.reverse, key) && l.reverse[key] == value
+//@   ensures  forall k K :: k != key ==> __in(l.reverse, k) == old(__in(l.reverse, k)) && l.reverse[k] == old(l.reverse[k])
+//@   modifies l.forward, l.reverse
+//@   # proof step: on the path that appends, the key is not in the bucket it is appended to
+//@   hint_before "l.forward[value] = append(l.forward[value], key)" !inB(l, value, key) && LB(l)
+//@ # committed delete
+//@ func (l *LookupIndex[K, E, V]) deleteLocked(key K)
+//@   tparams K Key, E Entry[K], V comparable
+//@   requires LI(l)
+//@   ensures  LI(l)
+//@   ensures  !__in(l.reverse, key)
+//@   ensures  forall k K :: k != key ==> __in(l.reverse, k) == old(__in(l.reverse, k)) && l.reverse[k] == old(l.reverse[k])
+//@   modifies l.forward, l.reverse
+//@   # proof step: with the key out of its bucket, the buckets are the inverse of reverse minus that key
+//@   hint_after "l.removeFromForward(key, oldValue)" forall v V, k K :: inB(l, v, k) ==> (k != key && __in(l.reverse, k) && l.reverse[k] == v)
+//@   hint_after "l.removeFromForward(key, oldValue)" forall v V, k K :: k != key && __in(l.reverse, k) && l.reverse[k] == v ==> inB(l, v, k)
+//@ # flushing a committed transaction's delta: committed state becomes old state overridden by the staged entries
+//@ func (l *LookupIndex[K, E, V]) flush(d *delta[K, V])
+//@   tparams K Key, E Entry[K], V comparable
+//@   requires LI(l) && d != nil && d.state != nil
+//@   ensures  LI(l)
+//@   ensures  forall k K :: __in(d.state, k) && d.state[k].deleted ==> !__in(l.reverse, k)
+//@   ensures  forall k K :: __in(d.state, k) && !d.state[k].deleted ==> __in(l.reverse, k) && l.reverse[k] == d.state[k].value
+//@   ensures  forall k K :: !__in(d.state, k) ==> __in(l.reverse, k) == old(__in(l.reverse, k)) && l.reverse[k] == old(l.reverse[k])
+//@   modifies l.forward, l.reverse
+//@   loop 0 modifies l.forward, l.reverse
+//@   loop 0 invariant LI(l)
+//@   loop 0 invariant forall k K :: __seen(k) && d.state[k].deleted ==> !__in(l.reverse, k)
+//@   loop 0 invariant forall k K :: __seen(k) && !d.state[k].deleted ==> __in(l.reverse, k) && l.reverse[k] == d.state[k].value
+//@   loop 0 invariant forall k K :: !__seen(k) ==> __in(l.reverse, k) == old(__in(l.reverse, k)) && l.reverse[k] == old(l.reverse[k])
